@@ -84,7 +84,7 @@ func ruleLeaveComplete(r *Run) {
 		hasModLoop := false
 		for _, ev := range path.Events {
 			if ev.Kind == EvGuard && ev.GKind == GRange {
-				if rs, ok := ev.Stmt.(*ast.RangeStmt); ok && r.P.Canon(fn, rs.X) == "recv.Modules" {
+				if ev.Over != nil && r.P.Canon(ev.Fn, ev.Over) == "recv.Modules" {
 					hasModLoop = true
 					if !ev.Val && iHD < 0 {
 						hdOK = true // zero modules loaded
@@ -104,8 +104,7 @@ func ruleLeaveComplete(r *Run) {
 			if ev.Kind != EvGuard || ev.GKind != GRange {
 				continue
 			}
-			rs, ok := ev.Stmt.(*ast.RangeStmt)
-			if !ok || r.P.Canon(fn, rs.X) != "recv.currentParticipant.entityIDs" {
+			if ev.Over == nil || r.P.Canon(ev.Fn, ev.Over) != "recv.currentParticipant.entityIDs" {
 				continue
 			}
 			hasEntLoop = true
@@ -359,8 +358,7 @@ func ruleModuleCleanup(r *Run) {
 				if ev.Kind != EvGuard || ev.GKind != GRange || !ev.Val {
 					continue
 				}
-				rs := ev.Stmt.(*ast.RangeStmt)
-				r.CheckT("E3", fn.Name+":range", r.P.Canon(fn, rs.X) == "recv.currentParticipant.entityIDs", ev.Pos, path, "module cleanup walks the leaver's own entity ids")
+				r.CheckT("E3", fn.Name+":range", ev.Over != nil && r.P.Canon(ev.Fn, ev.Over) == "recv.currentParticipant.entityIDs", ev.Pos, path, "module cleanup walks the leaver's own entity ids")
 				end := len(path.Events)
 				for j := i + 1; j < len(path.Events); j++ {
 					if path.Events[j].Kind == EvGuard && path.Events[j].GKind == GRange {
